@@ -6,7 +6,7 @@ CMD/RSV/ATYP variants, domain lengths 0..255, non-ASCII names, inconsistent leng
 and raw arbitrary bytes; crossed with proxyauth on/off, connection_strategy eager/lazy, connect outcome, a
 segmentation (whole / every byte / random cuts) and a completion schedule (the blocking socks5_auth hook and the
 OpenConnection are held for k further segments).  A second part enumerates EVERY segmentation (2^(n-1)) of a few
-canonical handshakes.
+canonical handshakes of <= 16 bytes (<= 20 in the thorough tier; longer ones: every segmentation with <= 4 cuts).
 
 Oracle: lib/ref_socks5.py (independent RFC 1928/1929 acceptor model, a set of acceptable outcomes) judges the run
 of the real Socks5Proxy layer under lib/driver.py; the segmented/scheduled run must be observably identical to the
@@ -27,7 +27,7 @@ LEVEL = "exploration"
 TECHNIQUE = "Hypothesis field-wise stream generation + exhaustive segmentation enumeration vs. RFC 1928/1929 reference model"
 RULE = ("client streams built from greeting/auth/request/data fields with mutations, truncation and raw bytes x "
         "proxyauth x eager/lazy x connect outcome x segmentation x hook/connect completion schedule; plus every "
-        "one of the 2^(n-1) segmentations of 4 canonical handshakes (n<=17). Non-trivial = a complete valid request "
+        "one of the 2^(n-1) segmentations of canonical handshakes with n<=16 (all with <=4 cuts for n<=21). Non-trivial = a complete valid request "
         "followed by >=1 relayed byte, or a stream with a malformed/unsupported field; distinct by "
         "(stream, config, cuts, schedule)")
 ASSUMPTIONS = ["lib/driver.py interprets commands like proxy/server.py",
@@ -37,9 +37,9 @@ LEVEL_TEXT = ("generated-input search: the real Socks5Proxy layer is run on ~3e5
               "run and compared with an independent acceptor model; all segmentations of 4 short canonical handshakes "
               "are enumerated exhaustively. No proof beyond the explored inputs.")
 LEVEL_NOTE = "trusts lib/driver.py (command interpretation) and lib/ref_socks5.py (RFC reading)"
-QUICK_N, THOROUGH_N = 240_000, 8_000_000
+QUICK_N, THOROUGH_N = 80_000, 2_500_000   # Hypothesis draws; each carries 4 schedules = 4 evaluations
 
-USER, PASSWORD = b"user", b"pa:ss"
+USER, PASSWORD = b"usr", b"p:w"
 
 _OPTS = {}
 
@@ -145,9 +145,7 @@ def obs_key(o):
 # ------------------------------------------------------------------------------------------------ oracle
 def check_case(case, ctx):
     stream = case["stream"]
-    auth, eager, ok = case["auth"], case["eager"], case["ok"]
-    cuts = case["cuts"]
-    ha, ho, close = case["hold_auth"], case["hold_open"], case["close"]
+    auth, eager, ok, close = case["auth"], case["eager"], case["ok"], case["close"]
 
     whole, xw = run_stream(stream, auth, eager, ok, [], None, None, close)
     if xw["crash"] is not None:
@@ -166,28 +164,32 @@ def check_case(case, ctx):
         if e.state == ref.PENDING and not whole.closed and not xw["closed_after_eof"]:
             ctx.fail("eof-in-handshake-not-closed:%s" % klass, "stream=%r" % stream)
 
-    trivial_seg = len(segments(stream, cuts)) <= 1 and ha is None and ho is None
-    if not trivial_seg:
-        seg, xs = run_stream(stream, auth, eager, ok, cuts, ha, ho, close)
-        if xs["crash"] is not None:
-            ctx.crash(xs["crash"], "layer-crash")
-            return
-        if obs_key(seg) != obs_key(whole):
-            ctx.fail("segmentation-dependent:%s" % klass,
-                     "whole=%r segmented=%r stream=%r cuts=%r hold_auth=%r hold_open=%r" % (
-                         obs_key(whole), obs_key(seg), stream, cuts, ha, ho))
-        if xs.get("closed_after_eof") != xw.get("closed_after_eof") or xs.get("child_saw_close") != xw.get("child_saw_close"):
-            ctx.fail("segmentation-dependent-eof:%s" % klass, "whole=%r segmented=%r stream=%r cuts=%r" % (xw, xs, stream, cuts))
-
     nontrivial = (e.state == ref.CONNECT and len(e.rest) >= 1) or e.state == ref.REJECT or e.may_reject
-    if nontrivial:
+    first = True
+    for cuts, ha, ho in case["scheds"]:
+        if not first:
+            ctx.ev()
+        first = False
         nseg = len(segments(stream, cuts))
-        segclass = "whole" if nseg <= 1 else "bytewise" if nseg == len(stream) else "cut"
-        ctx.nt((stream, auth, eager, ok, tuple(cuts), ha, ho, close),
-               "%s|%s%s%s" % (klass, segclass, "|held-auth" if ha is not None and auth else "",
-                              "|held-open" if ho is not None and eager else ""))
-    else:
-        ctx.cls("trivial:%s:%s" % (e.state, klass))
+        if not (nseg <= 1 and ha is None and ho is None):
+            seg, xs = run_stream(stream, auth, eager, ok, cuts, ha, ho, close)
+            if xs["crash"] is not None:
+                ctx.crash(xs["crash"], "layer-crash")
+                continue
+            if obs_key(seg) != obs_key(whole):
+                ctx.fail("segmentation-dependent:%s" % klass,
+                         "whole=%r segmented=%r stream=%r cuts=%r hold_auth=%r hold_open=%r" % (
+                             obs_key(whole), obs_key(seg), stream, cuts, ha, ho))
+            if xs.get("closed_after_eof") != xw.get("closed_after_eof") or xs.get("child_saw_close") != xw.get("child_saw_close"):
+                ctx.fail("segmentation-dependent-eof:%s" % klass,
+                         "whole=%r segmented=%r stream=%r cuts=%r" % (xw, xs, stream, cuts))
+        if nontrivial:
+            segclass = "whole" if nseg <= 1 else "bytewise" if nseg == len(stream) else "cut"
+            ctx.nt((stream, auth, eager, ok, tuple(cuts), ha, ho, close),
+                   "%s|%s%s%s" % (klass, segclass, "|held-auth" if ha is not None and auth else "",
+                                  "|held-open" if ho is not None and eager else ""))
+        else:
+            ctx.cls("trivial:%s:%s" % (e.state, klass))
 
 
 # ------------------------------------------------------------------------------------------------ generator
@@ -309,24 +311,29 @@ def _decode(b: bytes):
             i = (r.byte() << 8 | r.byte()) % len(stream)
             stream = stream[:i] + bytes([r.byte()]) + stream[i + (r.byte() & 1):]
     n = len(stream)
-    segk = r.byte() % 10
-    if segk == 0 or n < 2:
-        cuts = []
-    elif segk == 1:
-        cuts = list(range(1, n))
-    elif segk == 2:
-        cuts = [x for x in bounds if 0 < x < n]
-    elif segk == 3:
-        cuts = sorted({c for x in bounds for c in (x - 1, x + 1) if 0 < c < n})
-    else:
-        cuts = sorted({1 + (r.byte() << 8 | r.byte()) % (n - 1) for _ in range(1 + r.byte() % 6)})
-    h1, h2 = r.byte(), r.byte()
-    return {"stream": stream, "auth": auth, "eager": eager, "ok": ok, "cuts": cuts,
-            "hold_auth": h1 % 5 if h1 >= 128 else None, "hold_open": h2 % 5 if h2 >= 128 else None, "close": close}
+    scheds = []
+    for _ in range(NSCHED):
+        segk = r.byte() % 10
+        if segk == 0 or n < 2:
+            cuts = []
+        elif segk == 1:
+            cuts = list(range(1, n))
+        elif segk == 2:
+            cuts = [x for x in bounds if 0 < x < n]
+        elif segk == 3:
+            cuts = sorted({c for x in bounds for c in (x - 1, x + 1) if 0 < c < n})
+        else:
+            cuts = sorted({1 + (r.byte() << 8 | r.byte()) % (n - 1) for _ in range(1 + r.byte() % 6)})
+        h1, h2 = r.byte(), r.byte()
+        scheds.append([cuts, h1 % 5 if h1 >= 128 else None, h2 % 5 if h2 >= 128 else None])
+    return {"stream": stream, "auth": auth, "eager": eager, "ok": ok, "close": close, "scheds": scheds}
+
+
+NSCHED = 4
 
 
 def strategy(ctx):
-    return st.binary(min_size=72, max_size=96).map(_decode)
+    return st.binary(min_size=112, max_size=136).map(_decode)
 
 
 # ------------------------------------------------------------------------------------------------ exhaustive part
@@ -334,33 +341,44 @@ CANON = [
     # (stream, auth)
     (b"\x05\x01\x00" + b"\x05\x01\x00\x01\x0a\x00\x00\x05\x01\xbb" + b"hi", False),
     (b"\x05\x02\x00\x02" + b"\x05\x01\x00\x03\x02ab\x00\x50" + b"xyz", False),
-    (b"\x05\x01\x02" + b"\x01\x04user\x05pa:ss" + b"\x05\x01\x00\x03\x01a\x00\x50" + b"z", True),
+    (b"\x05\x01\x02" + b"\x01\x03usr\x03p:w" + b"\x05\x01\x00\x03\x01a\x00\x50" + b"z", True),
     (b"\x05\x01\x00" + b"\x05\x02\x00\x01\x0a\x00\x00\x05\x01\xbb" + b"hi", False),
+    (b"\x05\x01\x02" + b"\x01\x03usr\x03p:W" + b"\x05\x01\x00\x03\x01a\x00\x50", True),
 ]
+
+
+def _masks(n, full, shard, nshards):
+    """cut sets over n-1 positions: all of them if full, else all with <= 4 cuts; sliced by shard"""
+    import itertools
+    if full:
+        for mask in range(shard, 1 << (n - 1), nshards):
+            yield [i + 1 for i in range(n - 1) if mask >> i & 1]
+    else:
+        k = 0
+        for r in range(0, 5):
+            for comb in itertools.combinations(range(1, n), r):
+                if k % nshards == shard:
+                    yield list(comb)
+                k += 1
 
 
 def _exhaustive(ctx):
     total = 0
+    full_upto = 20 if ctx.thorough else 16
     for idx, (stream, auth) in enumerate(CANON):
         n = len(stream)
-        if n > (19 if ctx.thorough else 17):
-            continue
-        # the lazy/eager x hold dimension is folded into the mask index to keep the product affordable
-        for mask in range(ctx.shard, 1 << (n - 1), ctx.nshards):
-            cuts = [i + 1 for i in range(n - 1) if mask >> i & 1]
-            v = mask // ctx.nshards
-            case = {"stream": stream, "auth": auth, "eager": bool(v & 1), "ok": True, "cuts": cuts,
-                    "hold_auth": (v >> 1) % 3 - 1 if auth else None, "hold_open": (v >> 3) % 3 - 1 if v & 1 else None,
-                    "close": False}
-            for k in ("hold_auth", "hold_open"):
-                if case[k] is not None and case[k] < 0:
-                    case[k] = None
+        full = n <= full_upto
+        for v, cuts in enumerate(_masks(n, full, ctx.shard, ctx.nshards)):
+            # eager/lazy and the completion schedule are folded into the enumeration index
+            case = {"stream": stream, "auth": auth, "eager": bool(v & 1), "ok": True, "close": False,
+                    "scheds": [[cuts, (None, 0, 1)[(v >> 1) % 3] if auth else None,
+                                (None, 0, 2)[(v >> 3) % 3] if v & 1 else None]]}
             ctx.cur_case = case
             ctx.ev()
             check_case(case, ctx)
             total += 1
-    ctx.extra["exhaustive_segmentations"] = total
-    ctx.extra["exhaustive_canonical_streams"] = len(CANON)
+        ctx.extra["exhaustive_segmentations_stream%d" % idx] = "all" if full else "all with <=4 cuts"
+    ctx.extra["exhaustive_cases"] = total
 
 
 def run(ctx):
@@ -386,8 +404,8 @@ def _fuzz_one(data: bytes, ctx):
         if c2 == 255:
             cuts = list(range(1, n))
     case = {"stream": stream, "auth": bool(cfg & 1), "eager": bool(cfg & 2), "ok": not (cfg & 4 and cfg & 8),
-            "cuts": sorted(set(cuts)), "hold_auth": (cfg >> 4) % 3 if cfg & 16 else None,
-            "hold_open": (cfg >> 6) % 3 if cfg & 64 else None, "close": bool(cfg & 32)}
+            "close": bool(cfg & 32),
+            "scheds": [[sorted(set(cuts)), (cfg >> 4) % 3 if cfg & 16 else None, (cfg >> 6) % 3 if cfg & 64 else None]]}
     ctx.cur_case = case
     ctx.ev()
     check_case(case, ctx)
